@@ -8,6 +8,7 @@ import IvpModel.Proofs.StageEqs853
 import Mathlib.Algebra.BigOperators.Fin
 import Mathlib.Algebra.BigOperators.Ring.Finset
 import Mathlib.Algebra.Order.BigOperators.Ring.Finset
+import IvpModel.Gen.Common
 
 noncomputable section
 variable {K : Type} [Field K] [LinearOrder K] [IsStrictOrderedRing K] [SqrtPow K]
@@ -211,3 +212,46 @@ theorem dopri5_stiff_reflect {n : Nat} (k2 k6 y k1 k3 k4 k5 y1 : Vector K n) (h 
         (hlamb := hl)).hlamb := by
   simp only [Gen.Dopri5.stiff, Gen.Dopri5.stiff_loop1, vneg, Vector.getElem_ofFn, Fin.getElem_fin, sq_neg_sub, neg_h_comb, num_abs, abs_neg]
   rfl
+
+/-! ### the automatic first step (`hinit`) under time reflection -/
+
+theorem vneg_get {n : Nat} (v : Vector K n) (i : Fin n) : (vneg v)[i] = -v[i] := by simp [vneg]
+
+theorem hinit_loop1_even {n : Nat} (dnf dny : K) (atol rtol y f0 : Vector K n) :
+    Gen.Common.hinit_loop1 (dnf := dnf) (dny := dny) (atol := atol) (rtol := rtol) (y := y) (f0 := vneg f0)
+      = Gen.Common.hinit_loop1 (dnf := dnf) (dny := dny) (atol := atol) (rtol := rtol) (y := y) (f0 := f0) := by
+  unfold Gen.Common.hinit_loop1
+  simp only [vneg_get, neg_div, neg_mul_neg]
+
+theorem hinit_loop2_reflect {n : Nat} (h : K) (y f0 : Vector K n) :
+    Gen.Common.hinit_loop2 (y := y) (h := -h) (f0 := vneg f0) = Gen.Common.hinit_loop2 (y := y) (h := h) (f0 := f0) := by
+  unfold Gen.Common.hinit_loop2
+  simp only [vneg_get, neg_mul_neg]
+
+theorem hinit_loop3_even {n : Nat} (der2 : K) (atol rtol y f1 f0 : Vector K n) :
+    Gen.Common.hinit_loop3 (der2 := der2) (atol := atol) (rtol := rtol) (y := y) (f1 := vneg f1) (f0 := vneg f0)
+      = Gen.Common.hinit_loop3 (der2 := der2) (atol := atol) (rtol := rtol) (y := y) (f1 := f1) (f0 := f0) := by
+  unfold Gen.Common.hinit_loop3
+  have e : ∀ (a b s : K), ((-a - -b) / s) * ((-a - -b) / s) = ((a - b) / s) * ((a - b) / s) := by intro a b s; ring
+  simp only [vneg_get, e]
+
+theorem signum_neg (p : K) (hp : p ≠ 0) : Num.signum (-p) = -Num.signum p := by
+  simp only [num_signum]
+  rcases lt_or_gt_of_ne hp with h | h
+  · have h1 : ¬ (0 ≤ p) := not_le.mpr h
+    have h2 : 0 ≤ -p := by linarith
+    simp [h1, h2]
+  · have h1 : 0 ≤ p := h.le
+    have h2 : ¬ (0 ≤ -p) := by simp; exact h
+    simp [h1, h2]
+
+/-- **C13, the automatic first step under time reflection.** -/
+theorem hinit_reflect {n : Nat} (F1 : Vector K n) (atol rtol y f0 : Vector K n) (hmax posneg x : K) (iord : Nat) (hp : posneg ≠ 0) :
+    (Gen.Common.hinit (f := fun _ _ _ => vneg F1) (atol := atol) (rtol := rtol) (y := y) (f0 := vneg f0) (hmax := hmax) (posneg := -posneg) (x := -x) (iord := iord)).1
+      = -(Gen.Common.hinit (f := fun _ _ _ => F1) (atol := atol) (rtol := rtol) (y := y) (f0 := f0) (hmax := hmax) (posneg := posneg) (x := x) (iord := iord)).1
+    ∧ (Gen.Common.hinit (f := fun _ _ _ => vneg F1) (atol := atol) (rtol := rtol) (y := y) (f0 := vneg f0) (hmax := hmax) (posneg := -posneg) (x := -x) (iord := iord)).2
+      = (Gen.Common.hinit (f := fun _ _ _ => F1) (atol := atol) (rtol := rtol) (y := y) (f0 := f0) (hmax := hmax) (posneg := posneg) (x := x) (iord := iord)).2.map mirror := by
+  unfold Gen.Common.hinit
+  simp only [hinit_loop1_even, hinit_loop3_even, signum_neg posneg hp, mul_neg, hinit_loop2_reflect, abs_neg, num_abs]
+  refine ⟨trivial, ?_⟩
+  simp only [Array.map_push, Array.map_empty, mirror, neg_add]
